@@ -148,6 +148,18 @@ pub fn gen(seed: u64, tier: &str) -> Vec<Value> {
     } }
     for _ in 0..200 { let v: Vec<u8> = (0..3).map(|_| b"0123456789 +-./:&"[rng.gen_range(0..17)]).collect();
         out.push(json!({"kind":"parse","class":"status_value_sweep","headers":[{"n":"grpc-status","v":bytes_json(&v)}]})); }
+    // shape sweeps: every grpc-message over {'%', hex digit, non-hex letter, space, the two bytes of U+00E9} up to length 4
+    // (thorough 5), every grpc-status-details-bin over {'A', '=', '!', ' '} up to length 5 (thorough 6)
+    {
+        fn words(alpha: &[u8], max: usize) -> Vec<Vec<u8>> { let mut all = vec![vec![]]; let mut last = vec![vec![]];
+            for _ in 0..max { let mut next = vec![]; for w in &last { for a in alpha { let mut x: Vec<u8> = w.clone(); x.push(*a); next.push(x); } } all.extend(next.clone()); last = next; } all }
+        for w in words(&[b'%', b'A', b'z', b' ', 0xC3, 0xA9], if tier == "thorough" { 5 } else { 4 }) {
+            out.push(json!({"kind":"parse","class":"message_shape_sweep","headers":[{"n":"grpc-status","v":bytes_json(b"3")},{"n":"grpc-message","v":bytes_json(&w)}]}));
+        }
+        for w in words(&[b'A', b'=', b'!', b' '], if tier == "thorough" { 6 } else { 5 }) {
+            out.push(json!({"kind":"parse","class":"details_shape_sweep","headers":[{"n":"grpc-status","v":bytes_json(b"3")},{"n":"grpc-status-details-bin","v":bytes_json(&w)}]}));
+        }
+    }
     let m = if tier == "thorough" { 3000 } else { 600 };
     for _ in 0..m {
         let mut hs = vec![];
